@@ -77,8 +77,8 @@ type Proc struct {
 	// DirectFault lets a direct (unscheduled) process take one fault on its K-th request (C10).
 	DirectFault *FaultSpec
 	directN     int
-	sticky   map[string]*FaultSpec
-	keyCount map[string]int
+	sticky      map[string]*FaultSpec
+	keyCount    map[string]int
 }
 
 // StoreCall is one call through the storage seam.
@@ -124,8 +124,8 @@ type Sim struct {
 	waitFn      func(p *pend) pendResult
 	Trace       io.Writer
 	StallDur    time.Duration
-	OobHook     func(o *OobSpec)                 // applies an out-of-band action (set by the executor)
-	OwnedFn     func(o *Obj) bool                // does the object carry this release's ownership metadata?
+	OobHook     func(o *OobSpec)  // applies an out-of-band action (set by the executor)
+	OwnedFn     func(o *Obj) bool // does the object carry this release's ownership metadata?
 }
 
 func NewSim(schedule []uint32, policy string) *Sim {
